@@ -552,7 +552,7 @@ func checkTransport(c TransportCase) error {
 		return nil
 	}
 	base := run.Cmd(run.Opt{}, "obiconvert", plain)
-	if base.TimedOut {
+	if base.Inconclusive() {
 		evid.Class("timeout_inconclusive", 1)
 		return nil
 	}
@@ -560,7 +560,7 @@ func checkTransport(c TransportCase) error {
 		return fmt.Errorf("obiconvert FILE exits %d on a well-formed %s file: %s", base.Exit, c.L.Format, tailStr(base.Stderr))
 	}
 	cmp := func(what string, r run.Result) error {
-		if r.TimedOut {
+		if r.Inconclusive() {
 			evid.Class("timeout_inconclusive", 1)
 			return nil
 		}
